@@ -72,7 +72,10 @@ pub const fn cast_manuallydrop_array_ptr<T, const N: usize>(
 
 #[doc(hidden)]
 #[inline(always)]
-pub const fn cast_ptr_with_phantom<T, U>(ptr: *mut T, _phantom: PhantomData<fn(U) -> U>) -> *mut U {
+pub const fn cast_ptr_with_phantom<T, const N: usize>(
+    ptr: *mut T,
+    _phantom: PhantomData<fn([T; N]) -> [T; N]>,
+) -> *mut [T; N] {
     ptr.cast()
 }
 
